@@ -97,11 +97,69 @@ static void take_snapshot(vbi_decoder *vbi, int frame)
 	}
 }
 
+static int sut_cc608;      /* mode "cc608": the second EIA-608 implementation of the library (src/cc608_decoder.c) is the system under test */
+
+static int fetch_page_cc608(_vbi_cc608_decoder *cd, int p, struct dcell out[M_ROWS][M_COLS])
+{
+	static vbi_page pg;
+	int r, c;
+	vf_phase("_vbi_cc608_decoder_get_page");
+	if (!_vbi_cc608_decoder_get_page(cd, &pg, p + 1, TRUE)) return 0;
+	if (pg.rows != M_ROWS || pg.columns != M_COLS) return -1;
+	for (r = 0; r < M_ROWS; r++)
+		for (c = 0; c < M_COLS; c++) {
+			const vbi_char *vc = &pg.text[r * pg.columns + c];
+			struct dcell *d = &out[r][c];
+			d->uc = (uint16_t)vc->unicode;
+			d->fg = (uint8_t)vc->foreground; d->bg = (uint8_t)vc->background; d->op = (uint8_t)vc->opacity;
+			d->fl = (uint8_t)((vc->underline ? DF_UL : 0) | (vc->italic ? DF_IT : 0) | (vc->flash ? DF_FL : 0)
+				| ((vc->bold || vc->conceal || vc->size) ? DF_OTHER : 0));
+		}
+	return 1;
+}
+
+static void run_decoder_cc608(void)
+{
+	_vbi_cc608_decoder *cd;
+	double t = 1000.0;
+	int i, p;
+	n_snaps = 0;
+	memset(ev_count, 0, sizeof ev_count);
+	ev_other = 0;
+	vf_phase("_vbi_cc608_decoder_new");
+	cd = _vbi_cc608_decoder_new();
+	if (!cd) { vf_fail("harness:alloc", "_vbi_cc608_decoder_new failed"); return; }
+	for (p = 0; p < 8; p++) fetch_page_cc608(cd, p, prev_pg[p]);
+	for (i = 0; i < n_frames; i++) {
+		uint8_t b[2];
+		vf_phase("_vbi_cc608_decoder_feed");
+		b[0] = e608_par(frames[i].p[0][0]); b[1] = e608_par(frames[i].p[0][1]);
+		_vbi_cc608_decoder_feed(cd, b, 21, t, -1);
+		b[0] = e608_par(frames[i].p[1][0]); b[1] = e608_par(frames[i].p[1][1]);
+		_vbi_cc608_decoder_feed(cd, b, 284, t, -1);
+		t += 1001.0 / 30000.0;
+		if (frames[i].ck && n_snaps < MAXCK) {
+			struct snap *s = &snaps[n_snaps++];
+			s->frame = i;
+			for (p = 0; p < 8; p++) {
+				s->fetch_ok[p] = fetch_page_cc608(cd, p, s->pg[p]);
+				s->ev[p] = 1;          /* the event clause is decided on the service decoder (job asan) */
+				s->changed[p] = 0 != memcmp(s->pg[p], prev_pg[p], sizeof prev_pg[p]);
+				memcpy(prev_pg[p], s->pg[p], sizeof prev_pg[p]);
+			}
+		}
+	}
+	vf_phase("_vbi_cc608_decoder_delete");
+	_vbi_cc608_decoder_delete(cd);
+	vf_phase("case");
+}
+
 static void run_decoder(void)
 {
 	vbi_decoder *vbi;
 	double t = 1000.0;
 	int i, p, trace_page = -1;
+	if (sut_cc608) { run_decoder_cc608(); return; }
 	if (vf_verbose && getenv("C08_TRACE_PAGE")) trace_page = atoi(getenv("C08_TRACE_PAGE")) - 1;
 	if (trace_page > 7) trace_page = -1;
 	n_snaps = 0;
@@ -590,7 +648,7 @@ static unsigned judge(void)
 			if (best != LONG_MAX) {
 				char key[80];
 				evaluate(S, &all);
-				snprintf(key, sizeof key, "model:C08:%s", all.kind);
+				snprintf(key, sizeof key, "model:C08:%s%s", sut_cc608 ? "cc608:" : "", all.kind);
 				vf_fail(key, "not explained by any set of listed quirks. Closest model (quirks 0x%x): %s || strict model: %s | %s", S, witness_detail(&all, S), strict.kind, case_desc);
 				dump_pages_verbose(S, &all);
 				vf_count("cases_unexplained", 1);
@@ -617,7 +675,7 @@ static unsigned judge(void)
 		for (q = 0; q < Q_COUNT; q++)
 			if (S & QBIT(q)) {
 				char key[80];
-				snprintf(key, sizeof key, "model:C08:%s", m_quirk_name[q]);
+				snprintf(key, sizeof key, "model:C08:%s%s", sut_cc608 ? "cc608:" : "", m_quirk_name[q]);
 				vf_fail(key, "divergence from the strict model disappears exactly with {%s}%s. Strict: %s | %s", set,
 					m_quirk_open[q] == QK_OPEN ? "" : " (this quirk is repaired by a proposed fix: regression or unpatched tree)", witness_detail(&strict, B), case_desc);
 				vf_count(m_quirk_name[q], 1);
@@ -1545,6 +1603,7 @@ static int run_case(struct vf_rng *r, long idx)
 	nonempty_compared = 0;
 	pages_compared = pages_skipped_unflushed = pages_skipped_poisoned = 0;
 	cells_compared = 0;
+	sut_cc608 = !strcmp(vf_mode, "cc608") || (getenv("C08_SUT") && !strcmp(getenv("C08_SUT"), "cc608"));
 	if (!strcmp(vf_mode, "witness")) nt = run_witness(idx);
 	else if (!strcmp(vf_mode, "script")) nt = run_script();
 	else nt = run_generated(r);
